@@ -54,19 +54,29 @@ def main():
     demo = meta["demo_cmd"].split("   (")[0].strip()  # some agents appended an explanation in parentheses
     rep = {"property": pid[:3], "agent_meta": meta, "confirmation": {}}
     assert sh(f"git -C {src} status --porcelain").stdout.strip() == "", "worktree not clean"
-    r0 = sh(demo, timeout=1200)
-    rep["confirmation"]["demo_on_unchanged_tree"] = {"exit": r0.returncode, "tail": (r0.stdout + r0.stderr)[-300:]}
+    prevp = os.path.join(VERIF, "seeded", pid, "meta.json")
+    reuse = os.environ.get("RECHECK") and os.path.exists(prevp) and json.load(open(prevp)).get("confirmed")
+    if reuse:  # RECHECK=1: the change was confirmed before; only run the checks again (after the campaigns were strengthened)
+        pm = json.load(open(prevp))
+        rep["confirmation"], rep["confirmed"] = pm["confirmation"], pm["confirmed"]
+        for k in ("first_result", "first_pass_checks", "note"):
+            if k in pm:
+                rep[k] = pm[k]
+    else:
+        r0 = sh(demo, timeout=1200)
+        rep["confirmation"]["demo_on_unchanged_tree"] = {"exit": r0.returncode, "tail": (r0.stdout + r0.stderr)[-300:]}
     a = sh(f"git -C {src} apply {outd}/patch.diff")
     if a.returncode != 0:
         print("patch does not apply:", a.stderr)
         return 1
     try:
-        r1 = sh(demo, timeout=1200)
-        rep["confirmation"]["demo_on_changed_tree"] = {"exit": r1.returncode, "tail": (r1.stdout + r1.stderr)[-400:]}
-        missing, npass = stable_tests_pass(src)
-        rep["confirmation"]["pinned_suite_on_changed_tree"] = {"stable_passing": npass, "newly_failing": missing}
-        rep["confirmed"] = r0.returncode == 0 and r1.returncode != 0 and not missing
-        print(f"{pid}: demo clean={r0.returncode} changed={r1.returncode} suite newly failing={missing} -> confirmed={rep['confirmed']}", flush=True)
+        if not reuse:
+            r1 = sh(demo, timeout=1200)
+            rep["confirmation"]["demo_on_changed_tree"] = {"exit": r1.returncode, "tail": (r1.stdout + r1.stderr)[-400:]}
+            missing, npass = stable_tests_pass(src)
+            rep["confirmation"]["pinned_suite_on_changed_tree"] = {"stable_passing": npass, "newly_failing": missing}
+            rep["confirmed"] = r0.returncode == 0 and r1.returncode != 0 and not missing
+            print(f"{pid}: demo clean={r0.returncode} changed={r1.returncode} suite newly failing={missing} -> confirmed={rep['confirmed']}", flush=True)
         rep["checks"] = {}
         for c in checks:
             t0 = time.time()
